@@ -299,8 +299,10 @@ impl Check for C12 {
             // ... but when one number token is replaced and the line structure stays (no statement inserted), the
             // reference tree re-lexes 2.3%-5.2% of the tokens (max over 4 seeds x ~400 cases, flat and nested in one
             // block) and shares >= 0.70 of the node ids: a bound with a factor 3 margin is judged there
-            "indent" if m.token_replaced && m.mixed => (0.15, 1.6, 0.45),
-            "indent" => (1.01, 1.6, 0.0),
+            // (inside one big indentation block the reference tree asks for the text 1.17 times on average and up to
+            // 1.68 times - measured over 2000 cases -, flat documents stay below 0.7 / 1.41)
+            "indent" if m.token_replaced && m.mixed => (0.15, if nested { 2.5 } else { 1.6 }, 0.45),
+            "indent" => (1.01, if nested { 2.5 } else { 1.6 }, 0.0),
             // glr: every statement of the generated documents needs two stack versions; nodes made then are fragile and never reused
             "glr" => (1.01, 1.6, 0.0),
             _ => (MAX_LEXED_FRACTION, MAX_SERVED_FRACTION + 256.0 / m.len.max(1) as f64, 0.90),
